@@ -20,11 +20,17 @@ CLAIM = {
           'physical-record layer (C05) are modelled as a flat logical-data byte stream. Floats are exact dyadics; the '
           'general float cell is proved to decode to from68(to68(v)); |from68(to68 v) - v| <= 2^-22 |v| is checked by the oracle '
           'and is the subject of C07, not proved here. Domain restrictions made explicit in the theorems: 4-byte distinct '
-          'column mnemonics, 4-byte units, byte cells <= 255 long, finite floats, DSB type entry block = 0. Two defects '
-          'are recorded as open findings (C08-EMPTYLAST, C08-MNEMTYPE).'),
+          'column mnemonics, 4-byte units, byte cells <= 255 long, finite floats below the code-68 overflow clamp, DSB type '
+          'entry block = 0. The two defects found while building the check (empty last text cell read as None; numeric cell '
+          'in a MNEM column raising TypeError) were repaired in /repo; both input classes are still generated on every run and '
+          'a recurrence is an unlisted oracle failure.'),
  'technique': 'Lean 4 proof (structural induction over rows/blocks, omega) + model-implementation correspondence',
  'design_ref': 'DESIGN.md section 6 C08',
 }
+
+ANCHOR_FILES = ['src/TotalDepth/LIS/core/LogiRec.py', 'src/TotalDepth/LIS/core/RepCode.py', 'src/TotalDepth/LIS/core/pRepCode.py',
+                'src/TotalDepth/LIS/core/Mnem.py', 'src/TotalDepth/LIS/core/EngVal.py', 'src/TotalDepth/LIS/core/LisGen.py',
+                'src/TotalDepth/LIS/core/File.py', 'src/TotalDepth/LIS/core/PhysRec.py']
 
 RULE = ('tables: random shapes (0..8 rows, 1..7 columns, cells drawn from byte strings of length 0..255, integers at and '
         'around the 8/16/32-bit range boundaries, representable and non-representable floats, optional units, duplicated row '
@@ -47,8 +53,9 @@ TRUSTED = ['modelled, not verified: struct.pack/unpack of the formats 4B4s4s, BB
            'compared bit-for-bit on every float of the run',
            'rep codes 49, 50, 70 as *cell values* are outside the model (C07) and not generated']
 
-FINDING_EMPTY = 'C08-EMPTYLAST'
-FINDING_MNEM = 'C08-MNEMTYPE'
+# input classes of the two defects repaired in /repo (kept for the statistics; a recurrence is an unlisted failure)
+CLASS_EMPTY = 'empty-last-text-cell'
+CLASS_MNEM = 'non-text-cell-in-MNEM-column'
 
 # ----------------------------------------------------------------------------------------------- canonical forms
 
@@ -294,17 +301,17 @@ def table_in_domain(case):
 
 
 def table_finding_class(case):
-    """which recorded defect (if any) the input belongs to"""
+    """which formerly defective input class (if any) the input belongs to"""
     rows = [[cell_untok(c) for c in r] for r in case['rows']]
     vals = [[(c[0] if isinstance(c, tuple) else c) for c in r] for r in rows]
     mn = case['mnems']
     if '4d4e454d' in mn:
         k = mn.index('4d4e454d')
         if any(not isinstance(r[k], bytes) for r in vals):
-            return FINDING_MNEM
+            return CLASS_MNEM
     kept = first_kept([r[0] for r in vals]) if vals and mn else []
     if kept and vals[kept[-1]][-1] == b'':
-        return FINDING_EMPTY
+        return CLASS_EMPTY
     return None
 
 
@@ -313,13 +320,14 @@ def oracle_table(ctx, mods, case, wline, wobj, lr, how):
     LogiRec = mods[0]
     ctx.count('oracle_cases')
     cls = table_finding_class(case)
+    if cls: ctx.count('cases_' + cls)
     c2 = dict(case, how=list(how))
     if lr is None:
-        ctx.fail(c2, 'table in the domain could not be written: ' + wline[:60], finding=cls); return
+        ctx.fail(c2, 'table in the domain could not be written: ' + wline[:60]); return
     try:
         t = LogiRec.LrTableRead(file_of(mods, lr, how))
     except Exception as e:
-        ctx.fail(c2, 'written table could not be read back: %r' % (e,), finding=cls); return
+        ctx.fail(c2, 'written table could not be read back: %r' % (e,)); return
     name = untok(case['name']); mn = [bytes.fromhex(m) for m in case['mnems']]
     rows = [[cell_untok(c) for c in r] for r in case['rows']]
     rows = [[(c if isinstance(c, tuple) else (c, None)) for c in r] for r in rows]
@@ -330,7 +338,7 @@ def oracle_table(ctx, mods, case, wline, wobj, lr, how):
     except Exception as e:
         bad = 'decoded table cannot be inspected: %r' % (e,)
     if bad:
-        ctx.fail(c2, bad, finding=cls); return
+        ctx.fail(c2, bad); return
     if len(rowsE) >= 1 and len(mn) >= 2:
         ctx.nontriv(('table', case['name'], tuple(case['mnems']), tuple(tuple(r) for r in case['rows'])))
 
@@ -509,7 +517,7 @@ def gen_table(rng, kind):
         m = gen_mnem(rng)
         if m not in mn and m != b'MNEM': mn.append(m)
     if rng.random() < 0.6: mn[0] = b'MNEM'
-    elif ncol > 1 and rng.random() < 0.01: mn[rng.randrange(1, ncol)] = b'MNEM'
+    elif ncol > 1 and rng.random() < 0.15: mn[rng.randrange(1, ncol)] = b'MNEM'
     nrow = rng.choice([0, 1, 1, 2, 3, 4, 5, 8])
     names = []
     rows = []
@@ -517,7 +525,6 @@ def gen_table(rng, kind):
         if names and rng.random() < 0.2: nm = rng.choice(names)
         else:
             q = rng.random()
-            if mn[0] == b'MNEM' and q >= 0.85 and rng.random() < 0.9: q = 0.0       # keep the C08-MNEMTYPE class rare
             nm = rbytes(rng, 4) if q < 0.75 else rbytes(rng, rng.randint(1, 9)) if q < 0.85 else gen_int(rng) if q < 0.93 else gen_float(rng)
         names.append(nm)
         row = [nm] + [gen_value(rng) for _ in range(ncol - 1)]
@@ -701,8 +708,6 @@ def _run(ctx, mods):
     for f in firsts:
         for l in lasts:
             for mn0 in (b'MNEM', b'NAME'):
-                if mn0 == b'MNEM' and not isinstance(f, bytes) and (f not in (7, 1.5) or l != b'LAST'):
-                    continue          # class C08-MNEMTYPE: two representatives are enough
                 for u in (None, b'UNIT'):
                     cell = (l, u) if u else l
                     cases.append({'op': 'table', 'lrType': 34, 'name': tok(b'TABL'), 'mnems': [hx(mn0), hx(b'COL1')],
